@@ -107,11 +107,17 @@ func (e *Engine) verifyFunction(fn *ssa.Function, opt *Options) *FuncResult {
 			txt := t.decls.String() + axioms.String()
 			for _, solver := range []string{"z3-new", "cvc5"} {
 				hdr := e.buildPrelude(solver, txt)
+				// quick tier: a short look (a contradiction among the axioms usually shows within seconds or not at all);
+				// thorough tier: the large budget (one inconsistency of two crypto axioms took z3 25 s to find)
+				rl, wall := rlimitFirst, 20*time.Second
+				if opt.Thorough {
+					rl, wall = rlimitRetry, wallRetry
+				}
 				if solver == "z3-new" {
-					hdr += fmt.Sprintf("(set-option :rlimit %d)\n", rlimitRetry)
+					hdr += fmt.Sprintf("(set-option :rlimit %d)\n", rl)
 				}
 				f := writeScratch("axioms_"+solver+".smt2", hdr+txt+"(check-sat)\n")
-				r := runSolverLimited(solver, f, wallRetry)
+				r := runSolverLimited(solver, f, wall)
 				if len(r.lines) > 0 && r.lines[0] == "unsat" && len(r.errors) == 0 {
 					axiomProbeMu.Lock()
 					axiomProbeResult = append(axiomProbeResult, "the axioms of the specification vocabulary are contradictory by themselves ("+solver+")")
@@ -429,7 +435,7 @@ func (e *Engine) discharge(res *FuncResult, t *tr, body string, opt *Options) {
 					defer vwg.Done()
 					// budget: quick - as for one obligation; thorough - the large retry budget (a contradiction between two
 					// crypto axioms needed about 25 s of z3 in the context of Decrypt, and was invisible at 3 s)
-					hs, wall := solver, wallFirst/2
+					hs, wall := solver, 4*time.Second
 					if opt.Thorough {
 						wall = wallRetry
 						if solver == "z3-new" {
